@@ -553,6 +553,7 @@ pub fn run(args: &RunArgs) -> i32 {
         all_complete &= !stats.cap_hit;
         per_base.insert(format!("default-command={}", COMMANDS[base_command].join(" ")), stats_json(&stats));
     }
+    let frontend = part_frontend(&rep);
     cli::cleanup("c18");
     let cov = json!({
         "states": distinct.len() as u64,
@@ -566,6 +567,7 @@ pub fn run(args: &RunArgs) -> i32 {
         "explorer": per_base,
         "cli_runs": ctr.runs.load(Ordering::Relaxed),
         "located_diagnostics_checked": ctr.located.load(Ordering::Relaxed),
+        "front_end_cases": frontend,
         "fault_alphabet": FAULTS.iter().map(|f| f.id).collect::<Vec<_>>(),
         "samples": [sample.lock().unwrap().clone().unwrap_or(J::Null)],
     });
@@ -575,8 +577,116 @@ pub fn run(args: &RunArgs) -> i32 {
             "token starts are taken from R-LEX (columns in characters); a diagnostic in a file that R-LEX cannot lex is only required to lie inside the file".into(),
             "with faults in several layers only the first failing layer (schema parse < operation parse < schema resolve < schema check < operation import < operation check) is required to be reported, and 'every offending file' is required within the check layers".into(),
             "the human rendering is compared with the json diagnostics of an identical fresh copy of the project".into(),
+            "front-end cases (no configuration file, arguments overriding it, usage errors): exit status, well-formed stdout, no panic and the written set are judged; a usage error has no file to locate".into(),
         ],
     )
+}
+
+/// The command-line front end itself: running without a configuration file, arguments overriding the
+/// configuration, usage errors (unknown / missing command, no schema, unreadable configuration, two
+/// introspection files, JSON mixed with SDL). Exit status, well-formed stdout and the file system are judged;
+/// usage errors have no file to locate.
+fn part_frontend(rep: &Reporter) -> J {
+    const S: &str = "type Query { me: User }\ntype User { id: ID! name: String }\n";
+    const Q: &str = "query Q { me { id } }\n";
+    const Q_BAD: &str = "query Q { me { idd } }\n";
+    const CFG: &str = "schema: ./schema/*.graphql\ndocuments: ./src/*.graphql\nextensions:\n  nitrogql:\n    generate:\n      schemaOutput: ./gen/s.d.ts\n";
+    let intro = || {
+        let doc = crate::rparse::parse_ts(S).unwrap();
+        crate::introspect::introspection_json(&crate::schema::Sch::new(&doc.defs), crate::introspect::IntroOpts::default()).to_string()
+    };
+    let outs = ["gen/s.d.ts", "gen/s.d.ts.map", "src/q.d.graphql.ts", "src/q.d.graphql.ts.map"];
+    // (name, files, args after --output-format <f>, expected exit, expected written files (None = not judged), file a located diagnostic must name)
+    #[allow(clippy::type_complexity)]
+    let cases: Vec<(&str, Vec<(&str, String)>, Vec<&str>, i32, Option<Vec<&str>>, Option<&str>)> = vec![
+        ("arguments-only:valid", vec![("schema/s.graphql", S.into()), ("src/q.graphql", Q.into())], vec!["--schema", "./schema/*.graphql", "--operation", "./src/*.graphql", "--schema-output", "./gen/s.d.ts", "check", "generate"], 0, Some(outs.to_vec()), None),
+        ("arguments-only:check", vec![("schema/s.graphql", S.into()), ("src/q.graphql", Q.into())], vec!["--schema", "./schema/*.graphql", "--operation", "./src/*.graphql", "check"], 0, Some(vec![]), None),
+        ("arguments-only:faulty-operation", vec![("schema/s.graphql", S.into()), ("src/q.graphql", Q_BAD.into())], vec!["--schema", "./schema/*.graphql", "--operation", "./src/*.graphql", "--schema-output", "./gen/s.d.ts", "generate"], 1, Some(vec![]), Some("src/q.graphql")),
+        ("arguments-override-the-configuration", vec![("graphql.config.yaml", CFG.replace("./schema/*.graphql", "./nowhere/*.graphql").replace("./src/*.graphql", "./nowhere/*.graphql")), ("schema/s.graphql", S.into()), ("src/q.graphql", Q.into())], vec!["--config-file", "graphql.config.yaml", "--schema", "./schema/*.graphql", "--operation", "./src/*.graphql", "generate"], 0, Some(outs.to_vec()), None),
+        ("schema-output-argument-overrides", vec![("graphql.config.yaml", CFG.into()), ("schema/s.graphql", S.into()), ("src/q.graphql", Q.into())], vec!["--config-file", "graphql.config.yaml", "--schema-output", "./other/t.d.ts", "generate"], 0, Some(vec!["other/t.d.ts", "other/t.d.ts.map", "src/q.d.graphql.ts", "src/q.d.graphql.ts.map"]), None),
+        ("unknown-command", vec![("graphql.config.yaml", CFG.into()), ("schema/s.graphql", S.into()), ("src/q.graphql", Q.into())], vec!["--config-file", "graphql.config.yaml", "frobnicate"], 1, Some(vec![]), None),
+        ("unknown-command-after-check", vec![("graphql.config.yaml", CFG.into()), ("schema/s.graphql", S.into()), ("src/q.graphql", Q.into())], vec!["--config-file", "graphql.config.yaml", "check", "frobnicate"], 1, Some(vec![]), None),
+        ("no-command", vec![("graphql.config.yaml", CFG.into()), ("schema/s.graphql", S.into()), ("src/q.graphql", Q.into())], vec!["--config-file", "graphql.config.yaml"], 1, Some(vec![]), None),
+        ("no-schema-anywhere", vec![("graphql.config.yaml", "documents: ./src/*.graphql\n".into()), ("src/q.graphql", Q.into())], vec!["--config-file", "graphql.config.yaml", "check"], 1, Some(vec![]), None),
+        ("configuration-file-missing", vec![("schema/s.graphql", S.into())], vec!["--config-file", "nowhere.yaml", "check"], 1, Some(vec![]), None),
+        ("configuration-file-malformed", vec![("graphql.config.yaml", "schema: [\n".into()), ("schema/s.graphql", S.into())], vec!["--config-file", "graphql.config.yaml", "check"], 1, Some(vec![]), None),
+        ("schema-pattern-matches-nothing", vec![("graphql.config.yaml", CFG.into()), ("src/q.graphql", Q.into())], vec!["--config-file", "graphql.config.yaml", "check"], 1, Some(vec![]), None),
+        ("two-introspection-files", vec![("graphql.config.yaml", CFG.replace("./schema/*.graphql", "./schema/*.json")), ("schema/a.json", intro()), ("schema/b.json", intro()), ("src/q.graphql", Q.into())], vec!["--config-file", "graphql.config.yaml", "check"], 1, Some(vec![]), None),
+        ("introspection-mixed-with-sdl", vec![("graphql.config.yaml", CFG.replace("./schema/*.graphql", "./schema/*")), ("schema/a.json", intro()), ("schema/s.graphql", "extend type User { age: Int }\n".into()), ("src/q.graphql", Q.into())], vec!["--config-file", "graphql.config.yaml", "check"], 1, Some(vec![]), None),
+        ("one-introspection-file", vec![("graphql.config.yaml", CFG.replace("./schema/*.graphql", "./schema/*.json")), ("schema/a.json", intro()), ("src/q.graphql", Q.into())], vec!["--config-file", "graphql.config.yaml", "check", "generate"], 0, Some(outs.to_vec()), None),
+        ("check-after-generate", vec![("graphql.config.yaml", CFG.into()), ("schema/s.graphql", S.into()), ("src/q.graphql", Q.into())], vec!["--config-file", "graphql.config.yaml", "generate", "check"], 1, None, None),
+    ];
+    let mut runs = 0u64;
+    let mut outcomes: BTreeMap<String, String> = BTreeMap::new();
+    for (name, files, tail, want, want_written, must_name) in &cases {
+        for fmt in FORMATS {
+            let mut p = Project::default();
+            for (k, v) in files {
+                p.files.insert(k.to_string(), v.clone());
+            }
+            let dir = cli::thread_dir("c18");
+            cli::materialize(&dir, &p);
+            let mut a: Vec<String> = vec!["--output-format".into(), fmt.to_string()];
+            a.extend(tail.iter().map(|x| x.to_string()));
+            let r = cli::run(&dir, &a, &[], Duration::from_secs(60));
+            runs += 1;
+            let stderr = cli::strip_ansi(&r.stderr);
+            let case = |extra: J| json!({"part": "frontend", "case": name, "format": fmt, "args": a, "files": p.files, "exit": r.code, "stdout": r.stdout.chars().take(3000).collect::<String>(), "stderr": stderr.chars().take(3000).collect::<String>(), "written": r.written(), "detail": extra});
+            let v = |key: String, what: String| rep.report(Violation { key: format!("frontend.{key}"), what: format!("{name} [{fmt}]: {what}"), case: case(json!({})) });
+            outcomes.insert(format!("{name}[{fmt}]"), format!("exit {:?}, {} files written", r.code, r.written().len()));
+            if r.timed_out {
+                v(format!("no_exit[{name}]"), "the CLI did not exit within 60 s".into());
+                continue;
+            }
+            if stderr.contains("panicked at") {
+                v(format!("panic[{name}]"), format!("the CLI panicked: {}", stderr.lines().find(|l| l.contains("panicked at")).unwrap_or("")));
+            }
+            if r.code != Some(*want) {
+                v(format!("exit_status[{name}:want{want}]"), format!("exit status {:?}, expected {want}", r.code));
+            }
+            let mut named: BTreeSet<String> = BTreeSet::new();
+            if fmt != "human" {
+                match serde_json::from_str::<J>(r.stdout.trim_end_matches('\n')) {
+                    Err(e) => v(format!("stdout_not_json[{fmt}:{name}]"), format!("stdout is not one JSON document: {e}: {:?}", r.stdout.chars().take(200).collect::<String>())),
+                    Ok(doc) => {
+                        let dir_s = dir.to_string_lossy().to_string();
+                        for e in doc["check"]["errors"].as_array().into_iter().flatten() {
+                            if let Some(pth) = e["file"]["path"].as_str() {
+                                named.insert(rel(&dir_s, pth));
+                            }
+                        }
+                        for e in doc["diagnostics"].as_array().into_iter().flatten() {
+                            if let Some(pth) = e["location"]["path"].as_str() {
+                                named.insert(rel(&dir_s, pth));
+                            }
+                        }
+                        if let (Some(f), true) = (must_name, *want == 1) {
+                            if !named.contains(*f) {
+                                v(format!("fault_not_located[{fmt}:{name}]"), format!("no diagnostic names {f}; named: {named:?}"));
+                            }
+                        }
+                        if *want == 0 && fmt == "json" {
+                            if let Some(w) = want_written {
+                                let listed: BTreeSet<String> = doc["generate"]["files"].as_array().into_iter().flatten().map(|f| rel(&dir_s, f["path"].as_str().unwrap_or(""))).collect();
+                                let wanted: BTreeSet<String> = w.iter().map(|x| x.to_string()).collect();
+                                if listed != wanted {
+                                    v(format!("generated_set[{name}]"), format!("listed files {listed:?}, expected {wanted:?}"));
+                                }
+                            }
+                        }
+                    }
+                }
+            }
+            if let Some(w) = want_written {
+                let got: BTreeSet<String> = r.written().into_iter().collect();
+                let wanted: BTreeSet<String> = w.iter().map(|x| x.to_string()).collect();
+                if got != wanted {
+                    v(format!("written_set[{name}]"), format!("files written {got:?}, expected {wanted:?}"));
+                }
+            }
+        }
+    }
+    json!({"cases": cases.len(), "cli_runs": runs, "outcomes": outcomes})
 }
 
 pub fn replay(case: &J) -> i32 {
